@@ -17,7 +17,7 @@ def run(ctx):
     sp = ctx.path("cases.json")
     json.dump(cases, open(sp, "w"))
     tp = ctx.path("trace.ndjson")
-    nmut = 3000 if q else 60000
+    nmut = 3000 if q else 600000
     # a call that never returns ends the driver with a Hang event (watchdog); the driver is started again without that case
     hangs, skip = [], []
     for attempt in range(40):
